@@ -160,6 +160,43 @@ Definition run_setitem (fuel : nat) (self : arr) (index : list item) (vsh : list
   lz_setitem fuel self index (Leaf VID vsh).
 
 (* ------------------------------------------------------------------------------------------------------------
+   LazyStackedTensorDict.update_ (_lazy.py:3042-3067) with a tensordict source, dense OR lazy (stacked along any dim):
+   batch_size[stack_dim] of the source must equal the member count; the source is unbound along SELF's stack dim
+   (source.unbind = _unbind when it is a lazy stack: its own members when the dims agree, a re-stacking of the members'
+   unbind otherwise) and zipped with the members; a lazy member recurses, a plain one is updated in place *)
+Fixpoint lz_update_ (fuel : nat) (self : arr) (src : arr) : res (list wr) :=
+  match fuel with
+  | O => OutOfFuel
+  | S f =>
+    match self with
+    | Stack sd _ parts =>
+        match shape_of src with
+        | Some ssh =>
+            match nth_error ssh sd with
+            | Some s =>
+                if negb (s =? lenZ parts) then Raised else
+                rbind (if is_stack src then lz_unbind f src (Z.of_nat sd) else v_unbind src sd) (fun vs =>
+                rbind (zip_strict parts vs) (fun pv =>
+                rbind (rmap (fun p => lz_update_ f (fst p) (snd p)) pv) (fun ws => Ok (concat ws))))
+            | None => Raised                      (* IndexError: batch_size[stack_dim] *)
+            end
+        | None => Raised
+        end
+    | _ => Ok [WSet self [] src]
+    end
+  end.
+
+(* the sources the correspondence uses: the value itself, or the lazy stack of its slices along dim k *)
+Definition lazy_source (vsh : list Z) (k : nat) : res arr :=
+  match nth_error vsh k with
+  | Some s => Ok (Stack k (remove_at k vsh) (map (fun j => Index (select_idx k (Z.of_nat j)) (Leaf VID vsh)) (seq 0 (Z.to_nat s))))
+  | None => Raised
+  end.
+Definition run_update_ (fuel : nat) (self : arr) (mode : Z) (vsh : list Z) : res (list wr) :=
+  if mode <? 0 then lz_update_ fuel self (Leaf VID vsh)
+  else rbind (lazy_source vsh (Z.to_nat mode)) (lz_update_ fuel self).
+
+(* ------------------------------------------------------------------------------------------------------------
    evaluation of a write plan (for the correspondence): final content of every member position.
    content: association list (member id, flat position) -> flat position in the value; later entries win. *)
 Definition leaf_bs_w (tab : list (nat * list Z)) (j : nat) : list Z :=
